@@ -186,6 +186,19 @@ CLAIMED.update({
              "decoders are exercised only through corruptions of the sample NLRI values."),
 })
 
+CLAIMED.update({
+    "C04": dict(
+        category="exploration", design_ref="DESIGN.md 5 (C04)",
+        technique="TLA+ Chunking.tla (the splitting loop of encode_to as a state machine, invariants FrameWithinLimit / Partition / "
+                  "Complete checked by TLC for all entry-size sequences, deviations shown to violate them); the frames written by the "
+                  "real encoder are checked to be a behaviour of the specification and decoded with the codec negotiated from the "
+                  "opposite side",
+        text="2,616 encoder cases (19 families x codec variants x attribute-size classes x entry-count classes x announce/withdraw) in "
+             "each arithmetic profile: frame structure, entry sequence, next hop, attributes, fixed point; OPEN capability totals "
+             "across 255 bytes.  Bounded to the sample NLRI / attribute values.",
+        note="Trusted: the sample values and the harness's frame splitter; equality of attributes is by code and payload."),
+})
+
 NOT_YET = {}
 
 HOOK_COMMITS = []
